@@ -414,6 +414,8 @@ class C13(core.Check):
         "followers, all four minimisation methods, 1..3 iterations, tolerance 0.1 or 1e-3; streams: valid, symfree "
         "(free clamp leading a symmetry link about a plane off the origin), overlap "
         "(followers clamped / shared; correspondence and frame only), degenerate (a bound that collapses a quad), "
+        "deglink (the same with translation links led by the clamp: skip must put the followers back), radial "
+        "(bounded RadialClamp at radius 0.3..0.7 with the optimum beyond the bounds; admissible arc taken from the case), "
         "boundary (0 iterations, no clamps, auto_optimize). Non-trivial = at least one accepted (improved) step or a "
         "rollback / skip; distinct = different case description."
     )
@@ -615,6 +617,71 @@ class C13(core.Check):
         )
         return case
 
+    def _gen_deglink(self, rng: random.Random) -> dict:
+        """round 2: a degenerate trial step of a clamp that LEADS LINKS.  3x2 quad sketch; the bottom point next to
+        a corner slides on the bottom line between its two neighbours (default bounds = the two neighbouring points),
+        starts very close to one of them (steep gradient: the first step of SLSQP / L-BFGS-B lands on the other
+        bound and collapses an edge -> ValueError -> skip); the point above it on the top boundary (and sometimes
+        the middle one) follows by a translation link and must be put back as well"""
+        case: Dict[str, Any] = {"kind": "sketch", "dims": [3, 2, 0], "frame": "id", "stream": "deglink"}
+        lat = lattice_points(case)
+        jitter = {p: [0.0, 0.0, 0.0] for p in lat}
+        mirror = rng.random() < 0.5  # which corner the leader starts next to
+        col = 2 if mirror else 1
+        ends = [[1, 0, 0], [3, 0, 0]] if mirror else [[0, 0, 0], [2, 0, 0]]
+        x_start = rng.randint(1, 12) / 128  # 0.008 .. 0.094 from the near end
+        jitter[(col, 0, 0)] = [(1 - x_start) if mirror else -(1 - x_start), 0.0, 0.0]
+        for p in lat:
+            if p[1] > 0 and rng.random() < 0.5:
+                jitter[p] = [rng.randint(-3, 3) / 64, rng.randint(-3, 3) / 64 if p[1] == 1 else 0.0, 0.0]
+        links = [{"leader": [col, 0, 0], "follower": [col, 2, 0], "type": "translation"}]
+        if rng.random() < 0.4:
+            links.append({"leader": [col, 0, 0], "follower": [col, 1, 0], "type": "translation"})
+        case.update(
+            {
+                "jitter": [jitter[p] for p in lat],
+                "clamps": [{"at": [col, 0, 0], "type": "line", "dir": [1.0, 0.0, 0.0], "a": 0.0, "b": 0.0, "exact_ends": ends}],
+                "links": links,
+                "method": rng.choice(["SLSQP", "L-BFGS-B"]),
+                "max_iterations": rng.choice([1, 2, 3]),
+                "tolerance": 0.001,
+                "np_seed": 1,
+            }
+        )
+        return case
+
+    def _gen_radial_small(self, rng: random.Random) -> dict:
+        """round 2: a BOUNDED radial clamp on a circle of radius < 1 whose quality optimum lies beyond the bounds:
+        the interior vertex of a 2x2 lattice is moved along a small circle through its lattice position, away from
+        it by an arc length larger than the bounds allow it to travel back.  The admissible arc (bounds as given to
+        the constructor) is what the direct oracle checks."""
+        kind = "mesh" if rng.random() < 0.35 else "sketch"
+        dims = [2, 2, 1] if kind == "mesh" else [2, 2, 0]
+        case: Dict[str, Any] = {"kind": kind, "dims": dims, "frame": rng.choice(list(FRAMES)), "stream": "radial"}
+        lat = lattice_points(case)
+        jitter = {p: [rng.randint(-4, 4) / 64, rng.randint(-4, 4) / 64, (rng.randint(-4, 4) / 64 if kind == "mesh" else 0.0)] for p in lat}
+        radius = rng.randint(20, 44) / 64  # 0.31 .. 0.69
+        side = rng.choice([-1, 1])
+        at = (1, 1, rng.choice([0, 1]) if kind == "mesh" else 0)
+        center = [at[0] - side * radius, float(at[1]), float(at[2])]
+        arc_start = rng.randint(22, 30) / 64 * rng.choice([-1, 1])  # 0.34 .. 0.47 away from the lattice position
+        ang = arc_start / radius
+        pos = [center[0] + side * radius * math.cos(ang), center[1] + radius * math.sin(ang), float(at[2])]
+        jitter[at] = [pos[0] - at[0], pos[1] - at[1], 0.0]
+        bound = rng.randint(6, 10) / 64  # 0.09 .. 0.16
+        case.update(
+            {
+                "jitter": [jitter[p] for p in lat],
+                "clamps": [{"at": list(at), "type": "radial", "center": center, "normal": [0.0, 0.0, rng.choice([1.0, -1.0, 2.0])], "bounds": [-bound, bound]}],
+                "links": [],
+                "method": rng.choice(METHODS),
+                "max_iterations": rng.choice([1, 2]),
+                "tolerance": 0.1,
+                "np_seed": 1,
+            }
+        )
+        return case
+
     def _gen_symfree(self, rng: random.Random) -> dict:
         """a free clamp leading one or two links, the first a symmetry link whose plane does not pass through the
         origin (what `functions.mirror` used to spoil), at least two iterations"""
@@ -670,7 +737,9 @@ class C13(core.Check):
         cases = [self._gen_valid(rng, tier) for _ in range(n)]
         cases += [self._gen_symfree(rng) for _ in range(3 if tier == "quick" else 20)]
         cases += [self._gen_overlap(rng, tier) for _ in range(4 if tier == "quick" else 30)]
-        cases += [self._gen_degenerate(rng) for _ in range(4 if tier == "quick" else 20)]
+        cases += [self._gen_degenerate(rng) for _ in range(3 if tier == "quick" else 20)]
+        cases += [self._gen_deglink(rng) for _ in range(5 if tier == "quick" else 24)]
+        cases += [self._gen_radial_small(rng) for _ in range(4 if tier == "quick" else 32)]
         for _ in range(1 if tier == "quick" else 5):
             cases += self._gen_boundary(rng, tier)
         return cases
